@@ -1,5 +1,4 @@
 """canary for C11: SimultaneousScheduler.run_step with positional receiver lookup (pre-fix behaviour)"""
-from typing import List, Tuple
 from checks.ch import c11_h as _h
 from BPTK_Py import SimultaneousScheduler as _S
 import inspect as _inspect
@@ -7,18 +6,22 @@ import re as _re
 import textwrap as _tw
 
 _src = _tw.dedent(_inspect.getsource(_S.run_step))
-_a = _src.index("            if event:")
-_b = _src.index("        # give the model a chance")
-_src = _src[:_a] + "            if event:\n                model.agents[event.receiver_id].receive_event(event)\n\n" + _src[_b:]
+_lines = _src.split("\n")
+_i = [i for i, l in enumerate(_lines) if l.strip() == "if event:"][0]
+_j = [i for i, l in enumerate(_lines) if l.strip().startswith("# give the model a chance")][0]
+_ind = _lines[_i][:len(_lines[_i]) - len(_lines[_i].lstrip())]
+_src = "\n".join(_lines[:_i] + [_ind + "if event:", _ind + "    model.agents[event.receiver_id].receive_event(event)", ""] + _lines[_j:])
 _ns = dict(_inspect.getmodule(_S).__dict__)
 exec(_src, _ns)
 _S.run_step = _ns["run_step"]
-_valid = _h._valid
+_pre, _mk = _h._pre, _h._mk
 
 
-def _routing(hist: List[Tuple[int, int]], sends: List[Tuple[int, int, int]]) -> bool:
+def _routing(h0: int, a0: int, h1: int, a1: int, h2: int, a2: int, s0: int, r0: int, d0: int,
+             s1: int, r1: int, d1: int, s2: int, r2: int, d2: int) -> bool:
     """
-    pre: _valid(hist, sends)
+    pre: _pre(h0, a0, h1, a1, h2, a2, s0, r0, d0, s1, r1, d1, s2, r2, d2)
     post: _
     """
+    hist, sends = _mk(h0, a0, h1, a1, h2, a2, s0, r0, d0, s1, r1, d1, s2, r2, d2)
     return _h.run_script(hist, sends) is None
